@@ -41,7 +41,11 @@ def roundtrip(src, reduce_parentheses, want_case=False):
         return "generated text rejected: %s: %s" % (type(exc).__name__, msg[:60]), None
     d = diff(proj(ast1), proj(ast2))
     if d:
-        return "reparsed tree differs: %s" % re.sub(r"\[\d+\]", "[i]", d)[:120], None
+        d = re.sub(r"\[\d+\]", "[i]", d)
+        path, _, rest = d.partition(": ")
+        if len(path) > 70:          # a deep path: keep its end (the findings file is keyed on the last segments)
+            path = ".." + path[-70:]
+        return "reparsed tree differs: %s: %s" % (path, rest[:80]), None
     g2 = c_generator.CGenerator(reduce_parentheses=reduce_parentheses).visit(ast2)
     if g2 != g1:
         return "second generation differs from the first", None
